@@ -696,7 +696,7 @@ func (bucket *TypedBucket) SetLinkCount(fieldType FieldType, value []byte, count
 			return current, err
 		}
 		bucket.SetInt32(key, int32(count), nil)
-		return current, nil
+		return current, bucket.GetError()
 	}
 	return nil, bucket.GetError()
 }
